@@ -23,7 +23,8 @@ Definition tj_premise (s : schema) (a : jshape) (v : val) : bool := wfv s v && j
    [back]: bytes of from_json(JSON the model wrote), and whether that value == x *)
 Definition judge_tj (s : schema) (a : jshape) (v : val) (to_json_impl : result json)
                     (back : option (result bytes * bool)) : verdict :=
-  if negb (wfv s v && j_wf a v) then NA
+  if negb (wfv s v) then NA
+  else if negb (j_wf a v) then Fails 0           (* the annotation does not cover this schema-valid value *)
   else match to_json_impl, back with
        | Ok j, Some (Ok b, eq) =>
            if negb (json_eqb j (j_json a v)) then Fails 0
